@@ -222,3 +222,33 @@ impl core::hash::Hasher for RecHasher {
 pub fn stub_slice_index_fail(_start: usize, _end: usize, _len: usize) -> ! {
     panic!("slice index out of range (stubbed slice_index_fail)")
 }
+
+// ----------------------------------------------------------------------------------- panic-site observer
+// Installed with #[kani::stub(bytes::panic_advance, observing_panic_advance)]: when the crate is about to
+// raise its "does not fit / advance out of bounds" panic, every guard byte registered by the harness must still
+// hold the guard value, i.e. nothing outside the writable region was modified before the panic.
+pub static mut OBS_PTR: *const u8 = core::ptr::null();
+pub static mut OBS_N: usize = 0;
+pub static mut OBS_SKIP_LO: usize = 0;
+pub static mut OBS_SKIP_HI: usize = 0;
+pub const OBS_GUARD: u8 = 0xA5;
+
+/// register `n` bytes at `p` as guards, except the range [skip_lo, skip_hi) (bytes legitimately written earlier)
+pub unsafe fn observe_guards(p: *const u8, n: usize, skip_lo: usize, skip_hi: usize) {
+    OBS_PTR = p;
+    OBS_N = n;
+    OBS_SKIP_LO = skip_lo;
+    OBS_SKIP_HI = skip_hi;
+}
+
+pub fn observing_panic_advance(_e: &bytes::TryGetError) -> ! {
+    unsafe {
+        if OBS_N > 0 {
+            let i = any_below(OBS_N);
+            if i < OBS_SKIP_LO || i >= OBS_SKIP_HI {
+                assert!(*OBS_PTR.add(i) == OBS_GUARD, "memory modified before the does-not-fit panic was raised");
+            }
+        }
+    }
+    panic!("observed panic_advance")
+}
